@@ -138,7 +138,7 @@ theorem parse_mono (g : Graph) (L : Lex) :
     have ih2 : ∀ c, ∀ e q, parse g L n e c q ≠ .fuel → parse g L m e c q = parse g L n e c q :=
       fun c e q h => ih m e c q hle' h
     unfold parse at hne ⊢
-    cases hnd : g.nodes[a]? with
+    cases hnd : g.get a with
     | none => simp only [hnd] at hne ⊢
     | some nd =>
       simp only [hnd] at hne ⊢
@@ -225,17 +225,23 @@ theorem parse_mono (g : Graph) (L : Lex) :
                   | some s => simp only [Option.map, OptLe]; exact fun q h => ih2 c s q h)
               n m p .E true false hle' hne']
       all_goals (
-        by_cases hc : c = true
-        · simp only [hc, if_true] at hne ⊢
-        · simp only [hc] at hne ⊢
-          cases hcm : g.comments with
-          | none => simp only [hcm] at hne ⊢
-          | some cm =>
-            simp only [hcm] at hne ⊢
-            have : commentsLoop (fun q => parse g L n cm true q) (skipWs g L) n (skipWs g L p) ≠ .fuel := by
-              intro h; rw [h] at hne; exact hne rfl
-            rw [commentsLoop_mono (f := fun q => parse g L n cm true q) (f' := fun q => parse g L m cm true q)
-              (skipWs g L) (fun q h => ih2 true cm q h) n m _ hle' this])
+        have key : skipGen g L (fun e q => parse g L n e true q) n c p ≠ .fuel →
+            skipGen g L (fun e q => parse g L m e true q) m c p =
+            skipGen g L (fun e q => parse g L n e true q) n c p := by
+          intro hs
+          unfold skipGen at hs ⊢
+          by_cases hc : c = true
+          · simp only [hc, if_true]
+          · simp only [hc] at hs ⊢
+            cases hcm : g.comments with
+            | none => simp only
+            | some cm =>
+              simp only [hcm] at hs ⊢
+              exact commentsLoop_mono (f := fun q => parse g L n cm true q) (f' := fun q => parse g L m cm true q)
+                (skipWs g L) (fun q h => ih2 true cm q h) n m _ hle' hs
+        have : skipGen g L (fun e q => parse g L n e true q) n c p ≠ .fuel := by
+          intro h; rw [h] at hne; exact hne rfl
+        rw [key this])
 
 /-- any two fuel values that both give a result other than `.fuel` give the same one -/
 theorem parse_det (g : Graph) (L : Lex) {n m a c p} (h1 : parse g L n a c p ≠ .fuel)
